@@ -31,7 +31,10 @@ Holed == <<
   G("MultiPolygon", <<<<RectR(0, 0, 6, 4), RectR(2, 1, 4, 3)>>, <<RectR(7, 0, 8, 2)>>>>),
   G("MultiPolygon", <<<<RectR(0, 0, 4, 8), RectR(1, 2, 3, 6)>>, <<RectR(5, 0, 12, 8), RectR(6, 1, 11, 7)>>>>),
   G("MultiPolygon", <<<<RectR(1, 1, 12, 9), RectR(3, 3, 9, 7)>>>>),
-  G("Polygon", <<RectR(0, 0, 12, 8), RectR(2, 2, 10, 6)>>)
+  G("Polygon", <<RectR(0, 0, 12, 8), RectR(2, 2, 10, 6)>>),
+  \* several holes in one polygon: every one of them is outside
+  G("Polygon", <<RectR(0, 0, 12, 8), RectR(1, 2, 4, 6), RectR(5, 2, 8, 6), RectR(9, 2, 11, 6)>>),
+  G("Polygon", <<RectR(0, 0, 8, 10), RectR(2, 1, 6, 4), RectR(2, 6, 6, 9)>>)
 >>
 \* rings written WITHOUT the closing point (legal: a ring needs >= 3 points): a four-cornered box, a frame whose hole is
 \* unclosed, a multipolygon with unclosed parts and hole -- every corner counts
@@ -79,7 +82,8 @@ BoxD(td) == LET ta == TAxis(Tpl(td))  fa == FAxis(Tpl(td)) IN
 IvD(td)  == {D(td, "iv", p[1], 0, p[2], 0, 0, 0) : p \in Pairs(TAxis(Tpl(td)))}
 TsD(td)  == {D(td, "ts", s, 0, 0, 0, 0, 0) : s \in Ticks(TAxis(Tpl(td)))}
 \* no geometry at all: a = index of the fill value, b = 1 scalar value / 0 empty value list
-NoneD(td) == {D(td, "none", q, sc, 0, 0, 0, 0) : q \in 1..3, sc \in 0..1}
+\* b = 2, 3: a value LIST of length 1 / 2 although there is no geometry: the lengths differ, the call must be rejected
+NoneD(td) == {D(td, "none", q, sc, 0, 0, 0, 0) : q \in 1..3, sc \in 0..3}
 DenseRings == <<<<<<0, 3>>, <<2, 0>>, <<4, 0>>, <<4, 4>>, <<0, 4>>>>,
                 <<<<0, 2>>, <<2, 3>>, <<4, 3>>, <<4, 4>>, <<0, 4>>>>,
                 <<<<0, 3>>, <<1, 1>>, <<4, 1>>, <<4, 4>>, <<0, 4>>>>>>
@@ -197,7 +201,7 @@ Concrete(x) ==
         fl == IF x.gk = "none" THEN Fills[x.a] ELSE Fills[(n % 3) + 1]
         dt == IF fl < 0 THEN <<"float32", "int16">>[(n % 2) + 1] ELSE <<"float32", "uint8", "int32", "float64">>[((n \div 3) % 4) + 1]
         sc == IF x.gk = "none" THEN x.b = 1 ELSE x.mm = 0 /\ x.g3 = 0 /\ (n \div 2) % 3 = 0
-        vs == CASE x.gk = "none" -> IF sc THEN <<5>> ELSE <<>>
+        vs == CASE x.gk = "none" -> IF x.b = 1 THEN <<5>> ELSE IF x.b = 0 THEN <<>> ELSE IF x.b = 2 THEN <<1>> ELSE <<1, 2>>
                 [] x.mm = 1 -> IF Len(gs) = 1 THEN <<>> ELSE <<4>>
                 [] x.mm = 2 -> IF Len(gs) = 1 THEN <<1, 2>> ELSE <<1, 2, 3>>
                 [] OTHER    -> IF sc /\ x.g3 = 0 THEN <<5>> ELSE IF Len(gs) = 1 THEN <<1 + (n % 3)>>
